@@ -1,6 +1,6 @@
 (* Statement-granular interleaving model of /repo/syncx/limit_pool.go (C14, C15).
    One model step = one Go statement of Get/Put; the only shared accesses are the two
-   atomic adds on the int32 token counter.  Definitions only. *)
+   atomic adds on the int64 token counter (atomic.Int64 since the fix: commit; it was an int32 truncating maxTokens >= 2^31).  Definitions only. *)
 From Ekit Require Import Common Conc.
 
 (* program counters = the statements of Get and Put (labels in ocaml/drv_limitpool.ml) *)
@@ -21,14 +21,14 @@ Definition lp_pc_eqb (a b : lp_pc) : bool :=
 
 Record lp_cfg := {
   lp_max : Z;                       (* maxTokens given to the constructor *)
-  lp_tokens : Z;                    (* the int32 counter *)
+  lp_tokens : Z;                    (* the int64 counter *)
   lp_thr : list (tid * lp_pc);      (* calls in flight *)
   lp_held : Z                       (* objects the client holds: Gets that RETURNED true minus Puts STARTED *)
 }.
 
-(* NewLimitPool(maxTokens): tokens.Add(int32(maxTokens)) — the conversion truncates *)
+(* NewLimitPool(maxTokens): tokens.Add(int64(maxTokens)); maxTokens is a 64-bit int *)
 Definition lp_init (maxTokens : Z) : lp_cfg :=
-  {| lp_max := maxTokens; lp_tokens := wrap_s 32 maxTokens; lp_thr := []; lp_held := 0 |}.
+  {| lp_max := maxTokens; lp_tokens := wrap_s 64 maxTokens; lp_thr := []; lp_held := 0 |}.
 
 Inductive lp_ev :=
 | LCallGet (t : tid)
@@ -40,7 +40,10 @@ Inductive lp_obs :=
 | LRetGet (ok : bool)
 | LRetPut.
 
-Definition add32 (x d : Z) : Z := wrap_s 32 (x + d).
+Definition add64 (x d : Z) : Z := wrap_s 64 (x + d).
+
+(* the pinned code kept the counter in 32 bits *)
+Definition lp_init_pinned32 (maxTokens : Z) : Z := wrap_s 32 maxTokens.
 
 Definition lp_exec1 (c : lp_cfg) (e : lp_ev) : option (lp_cfg * lp_obs) :=
   match e with
@@ -63,12 +66,12 @@ Definition lp_exec1 (c : lp_cfg) (e : lp_ev) : option (lp_cfg * lp_obs) :=
     match lookup t (lp_thr c) with
     | None => None
     | Some GetDec =>
-      let tk := add32 (lp_tokens c) (-1) in
+      let tk := add64 (lp_tokens c) (-1) in
       let p' := if tk <? 0 then GetComp else GetRetT in
       Some ({| lp_max := lp_max c; lp_tokens := tk;
                lp_thr := update t p' (lp_thr c); lp_held := lp_held c |}, LAt p')
     | Some GetComp =>
-      Some ({| lp_max := lp_max c; lp_tokens := add32 (lp_tokens c) 1;
+      Some ({| lp_max := lp_max c; lp_tokens := add64 (lp_tokens c) 1;
                lp_thr := update t GetRetF (lp_thr c); lp_held := lp_held c |}, LAt GetRetF)
     | Some GetRetF =>
       Some ({| lp_max := lp_max c; lp_tokens := lp_tokens c;
@@ -80,7 +83,7 @@ Definition lp_exec1 (c : lp_cfg) (e : lp_ev) : option (lp_cfg * lp_obs) :=
       Some ({| lp_max := lp_max c; lp_tokens := lp_tokens c;
                lp_thr := update t PutAdd (lp_thr c); lp_held := lp_held c |}, LAt PutAdd)
     | Some PutAdd =>
-      Some ({| lp_max := lp_max c; lp_tokens := add32 (lp_tokens c) 1;
+      Some ({| lp_max := lp_max c; lp_tokens := add64 (lp_tokens c) 1;
                lp_thr := remove t (lp_thr c); lp_held := lp_held c |}, LRetPut)
     end
   end.
